@@ -531,6 +531,8 @@ func runTreeLaw(l *TreeLine, pkg *reg.Pkg, x *conc.Ctx, mode string, res *rep.Re
 		if b := conc.Restrict(abs.Project(r2, pkg), x.V); len(abs.Diff(b, orig, false)) > 0 {
 			res.Violate("C14", sig("C14", "build-prune"), "BuildEmptyTree+PruneEmptyBranches changed the leaf set: "+strings.Join(abs.Diff(b, orig, false), "; "), tc)
 		}
+	case "c11":
+		runC11(root, orig, pkg, x, res, tc, sig)
 	case "c32":
 		// the plain shape also carries the unkeyed state list st/ul (derived state as well)
 		if len(l.T.Ct) > 0 || len(l.T.Lv) > 0 {
@@ -688,4 +690,105 @@ func augmentUnkeyed(root ygot.GoStruct, pkg *reg.Pkg, x *conc.Ctx) int {
 		n++
 	}
 	return n
+}
+
+// runC11 calls the read-only and encoding APIs with every kind of option value and checks that
+// neither the tree nor any option / payload object passed in is modified (C11).
+func runC11(root ygot.GoStruct, orig *abs.Tree, pkg *reg.Pkg, x *conc.Ctx, res *rep.Result, tc *TreesCase, sig func(string, string) map[string]string) {
+	same := func(api string) {
+		if after := conc.Restrict(abs.Project(root, pkg), x.V); !abs.Equal(after, orig, true) {
+			res.Violate("C11", sig("C11", api+"-mutates-input"), api+" changed its input tree: "+strings.Join(abs.Diff(after, orig, true), "; "), tc)
+		}
+	}
+	opt := func(api string, before, after interface{}) {
+		if !reflect.DeepEqual(before, after) {
+			res.Violate("C11", sig("C11", api+"-mutates-option"), fmt.Sprintf("%s modified an option value: before %+v after %+v", api, before, after), tc)
+		}
+	}
+	call := func(api string, f func() error) {
+		if _, pan := guard(f); pan != "" {
+			res.Violate("C20", sig("C20", "panic"), "panic in "+api+": "+firstLine(pan), tc)
+		}
+	}
+	for _, prefix := range []bool{false, true} {
+		mk := func() *ygot.RFC7951JSONConfig {
+			return &ygot.RFC7951JSONConfig{AppendModuleName: prefix, PrependModuleNameIdentityref: prefix, PreferShadowPath: prefix,
+				RewriteModuleNames: map[string]string{x.V.Module: "renamed-" + x.V.Module}}
+		}
+		cfg, ref := mk(), mk()
+		call("EmitJSON", func() error {
+			ej := &ygot.EmitJSONConfig{Format: ygot.RFC7951, RFC7951Config: cfg, Indent: "  ", SkipValidation: true,
+				ValidationOpts: []ygot.ValidationOption{&ytypes.LeafrefOptions{IgnoreMissingData: true}}}
+			ejRef := *ej
+			_, err := ygot.EmitJSON(root, ej)
+			if ej.Format != ejRef.Format || ej.RFC7951Config != ejRef.RFC7951Config || ej.Indent != ejRef.Indent || ej.SkipValidation != ejRef.SkipValidation || len(ej.ValidationOpts) != 1 {
+				res.Violate("C11", sig("C11", "EmitJSON-mutates-option"), "EmitJSON modified its EmitJSONConfig", tc)
+			}
+			return err
+		})
+		opt("EmitJSON", ref, cfg)
+		same("EmitJSON")
+		call("ConstructIETFJSON", func() error { _, err := ygot.ConstructIETFJSON(root, cfg); return err })
+		opt("ConstructIETFJSON", ref, cfg)
+		same("ConstructIETFJSON")
+		call("ConstructInternalJSON", func() error { _, err := ygot.ConstructInternalJSON(root); return err })
+		same("ConstructInternalJSON")
+		// EncodeTypedValue of the variant's struct, as JSON_IETF with a configuration
+		if sub, _ := subStruct(root, x); sub != nil {
+			call("EncodeTypedValue", func() error { _, err := ygot.EncodeTypedValue(sub, gpb.Encoding_JSON_IETF, cfg); return err })
+			opt("EncodeTypedValue", ref, cfg)
+			same("EncodeTypedValue")
+		}
+	}
+	// notifications with both prefix forms
+	ss := []string{"pre", "fix"}
+	nc := ygot.GNMINotificationsConfig{UsePathElem: false, StringSlicePrefix: ss}
+	call("TogNMINotifications", func() error { _, err := ygot.TogNMINotifications(root, 7, nc); return err })
+	opt("TogNMINotifications", []string{"pre", "fix"}, ss)
+	pe := []*gpb.PathElem{{Name: "pre", Key: map[string]string{"k": "v"}}}
+	peRef := []*gpb.PathElem{{Name: "pre", Key: map[string]string{"k": "v"}}}
+	call("TogNMINotifications", func() error {
+		_, err := ygot.TogNMINotifications(root, 7, ygot.GNMINotificationsConfig{UsePathElem: true, PathElemPrefix: pe})
+		return err
+	})
+	if len(pe) != 1 || !proto.Equal(pe[0], peRef[0]) {
+		res.Violate("C11", sig("C11", "TogNMINotifications-mutates-option"), "TogNMINotifications modified its PathElemPrefix", tc)
+	}
+	same("TogNMINotifications")
+	// Diff against an empty root, with and without options
+	other := pkg.NewRoot()
+	dpo := &ygot.DiffPathOpt{MapToSinglePath: true, PreferShadowPath: true}
+	call("Diff", func() error { _, err := ygot.Diff(root, other, dpo, &ygot.IgnoreAdditions{}); return err })
+	opt("Diff", &ygot.DiffPathOpt{MapToSinglePath: true, PreferShadowPath: true}, dpo)
+	call("DiffWithAtomic", func() error { _, err := ygot.DiffWithAtomic(other, root, dpo); return err })
+	same("Diff")
+	if after := abs.Project(other, pkg); len(after.Lines()) != 0 {
+		res.Violate("C11", sig("C11", "Diff-mutates-input"), "Diff changed its (empty) second argument: "+strings.Join(after.Lines(), "; "), tc)
+	}
+	// Validate with options
+	lo := &ytypes.LeafrefOptions{IgnoreMissingData: true, Log: false}
+	validate(root, lo)
+	opt("Validate", &ytypes.LeafrefOptions{IgnoreMissingData: true, Log: false}, lo)
+	same("Validate")
+	// MergeStructs with itself-like input and options
+	mo := &ygot.MergeOverwriteExistingFields{}
+	cpy, _ := ygot.DeepCopy(root)
+	call("MergeStructs", func() error { _, err := ygot.MergeStructs(root, cpy, mo, &ygot.MergeEmptyMaps{}); return err })
+	same("MergeStructs")
+	// Unmarshal of a decoded JSON value: the value is not modified
+	if js, err := ygot.Marshal7951(root, &ygot.RFC7951JSONConfig{AppendModuleName: true}); err == nil {
+		var v1, v2 interface{}
+		json.Unmarshal(js, &v1)
+		json.Unmarshal(js, &v2)
+		if sch, err := rootSchema(pkg); err == nil {
+			for _, opts := range [][]ytypes.UnmarshalOpt{nil, {&ytypes.IgnoreExtraFields{}}, {&ytypes.PreferShadowPath{}}} {
+				nr := pkg.NewRoot()
+				call("ytypes.Unmarshal", func() error { return ytypes.Unmarshal(sch, nr, v1, opts...) })
+				if !reflect.DeepEqual(v1, v2) {
+					res.Violate("C11", sig("C11", "Unmarshal-mutates-json"), fmt.Sprintf("ytypes.Unmarshal modified the decoded JSON value it was given: %v -> %v", v2, v1), tc)
+					json.Unmarshal(js, &v1)
+				}
+			}
+		}
+	}
 }
